@@ -74,6 +74,7 @@ const (
 	oPeekState
 	oTransform
 	oReplace
+	oTwice // Map2(p, p, 10a+b): the same sub-program VALUE occurs twice in one program
 	oWithState
 	oTraverse
 	oFoldM
@@ -123,6 +124,7 @@ var ops = [nOps]opDef{
 	oPeekState:         {"statet.PeekState", 1, []bool{false}, nil},
 	oTransform:         {"statet.Transform", 1, []bool{false}, nil},
 	oReplace:           {"statet.Replace", 1, []bool{false}, nil},
+	oTwice:             {"statet.Map2", 1, []bool{false}, nil},
 	oWithState:         {"statet.WithState", 1, []bool{true}, nil},
 	oTraverse:          {"statet.Traverse", 1, []bool{true}, []string{"TraverseSeq", "Traverse", "TraverseSlice"}},
 	oFoldM:             {"statet.FoldM", 1, []bool{true}, nil},
@@ -207,6 +209,8 @@ func (n *node) String() string {
 		return fmt.Sprintf("Transform(%s, (s,t)=>t ok ? (inc s, a+1) : (s, Success(100+10s+code)))", k(0))
 	case oReplace:
 		return fmt.Sprintf("Replace(%s, 9)", k(0))
+	case oTwice:
+		return fmt.Sprintf("(p := %s; Map2(p, p, 10a+b))", k(0))
 	case oWithState:
 		return fmt.Sprintf("WithState(arg=>%s)", k(0))
 	case oTraverse:
@@ -323,6 +327,32 @@ func genProgram(x *mc.X, n int, bound bool) *node {
 
 type logger struct {
 	entries []string
+	kept    []keptSlice // every slice a Sequence/Traverse step returned, with its contents at that moment
+}
+
+// keptSlice: a slice result handed out by a run; a later run (or a later evaluation of the
+// same sub-program value inside one run) must not change it.
+type keptSlice struct {
+	what string
+	raw  []int
+	at   []int
+}
+
+func (l *logger) keep(what string, raw []int) {
+	l.kept = append(l.kept, keptSlice{what, raw, append([]int(nil), raw...)})
+}
+
+// adaptSlice is adapt for slice results; the slice itself is kept for the final inspection.
+func adaptSlice[R any](f funcs, what string, p fp.StateT[int, R], toSlice func(R) []int) ST {
+	return func(s int) (fp.Try[int], int) {
+		t, ns := p(s)
+		if t.IsSuccess() {
+			raw := toSlice(t.Get())
+			f.l.keep(what, raw)
+			return fp.Success(digits(raw)), ns
+		}
+		return fp.Failure[int](t.Failed().Get()), ns
+	}
 }
 
 func (l *logger) log(format string, args ...any) {
@@ -508,16 +538,23 @@ func build(f funcs, n *node, arg int) ST {
 		return statet.Transform(k(0), f.transform)
 	case oReplace:
 		return statet.Replace(k(0), 9)
+	case oTwice:
+		if takesIterator(n.kids[0]) {
+			// built from a caller-supplied iterator: single-use, so two separately built values
+			return statet.Map2(k(0), k(0), f.ab)
+		}
+		p := k(0)
+		return statet.Map2(p, p, f.ab)
 	case oWithState:
 		return statet.WithState(body(0))
 	case oTraverse:
 		switch n.v {
 		case 0:
-			return adapt(statet.TraverseSeq(fp.Seq[int]{1, 2}, body(0)), func(r fp.Seq[int]) int { return digits(r) })
+			return adaptSlice(f, "TraverseSeq", statet.TraverseSeq(fp.Seq[int]{1, 2}, body(0)), func(r fp.Seq[int]) []int { return r })
 		case 1:
-			return adapt(statet.Traverse(fp.IteratorOfSeq([]int{1, 2}), body(0)), func(r fp.Iterator[int]) int { return digits(r.ToSeq()) })
+			return adaptSlice(f, "Traverse", statet.Traverse(fp.IteratorOfSeq([]int{1, 2}), body(0)), func(r fp.Iterator[int]) []int { return r.ToSeq() })
 		default:
-			return adapt(statet.TraverseSlice([]int{1, 2}, body(0)), digits)
+			return adaptSlice(f, "TraverseSlice", statet.TraverseSlice([]int{1, 2}, body(0)), func(r []int) []int { return r })
 		}
 	case oFoldM:
 		return statet.FoldM(fp.IteratorOfSeq([]int{1, 2}), 0, func(b, a int) ST { return build(f, n.kids[0], 10*b+a) })
@@ -556,9 +593,9 @@ func build(f funcs, n *node, arg int) ST {
 		return statet.Concat(k(0), k(1))
 	case oSequence2:
 		if n.v == 0 {
-			return adapt(statet.Sequence([]ST{k(0), k(1)}), digits)
+			return adaptSlice(f, "Sequence", statet.Sequence([]ST{k(0), k(1)}), func(r []int) []int { return r })
 		}
-		return adapt(statet.SequenceIterator(fp.IteratorOfSeq([]ST{k(0), k(1)})), func(r fp.Iterator[int]) int { return digits(r.ToSeq()) })
+		return adaptSlice(f, "SequenceIterator", statet.SequenceIterator(fp.IteratorOfSeq([]ST{k(0), k(1)})), func(r fp.Iterator[int]) []int { return r.ToSeq() })
 	case oTransformWith:
 		return statet.TransformWith(k(0), func(t fp.Try[int]) ST { return build(f, n.kids[1], tryArg(t)) })
 	case oRecoverWith:
@@ -568,7 +605,7 @@ func build(f funcs, n *node, arg int) ST {
 	case oConcat3:
 		return statet.Concat(k(0), k(1), k(2))
 	case oSequence3:
-		return adapt(statet.Sequence([]ST{k(0), k(1), k(2)}), digits)
+		return adaptSlice(f, "Sequence", statet.Sequence([]ST{k(0), k(1), k(2)}), func(r []int) []int { return r })
 	case oFailE2:
 		return statet.FromTry[int](fp.Failure[int](e2))
 	}
@@ -734,6 +771,13 @@ func (m *refm) ref(n *node, arg int, s int) (res, int) {
 			return r, ns
 		}
 		return okv(9), ns
+	case oTwice:
+		vals, r, ns := seq(s, 0, 0)
+		if !r.ok {
+			return r, ns
+		}
+		m.l.log("step:ab(a=%d,b=%d)", vals[0], vals[1])
+		return okv(10*vals[0] + vals[1]), ns
 	case oWithState:
 		return m.ref(n.kids[0], s, s)
 	case oTraverse:
@@ -960,8 +1004,8 @@ func check(n *node, arg, s int) (verdict, *refm) {
 	}
 	runs := []runSpec{{s, "", "first run"}}
 	if !takesIterator(n) {
-		runs = append(runs, runSpec{s, "/second-run", "second run of the same StateT value from the same state"},
-			runSpec{(s + 1) % 3, "/second-run", "third run of the same StateT value, from another state"})
+		runs = append(runs, runSpec{(s + 1) % 3, "/second-run", "second run of the same StateT value, from another state"},
+			runSpec{s, "/second-run", "third run of the same StateT value, from the first state again"})
 	}
 	for i, r := range runs {
 		m := first
@@ -980,6 +1024,13 @@ func check(n *node, arg, s int) (verdict, *refm) {
 				v.msg = fmt.Sprintf("%s (state %d) differs although the first run from state %d agreed with the reference: %s", r.what, r.s, s, v.msg)
 			}
 			return verdict{v.kind + r.suffix, v.msg}, first
+		}
+	}
+	// after the last run: every slice any run handed out must still read as it did then
+	for _, k := range lg.kept {
+		if fmt.Sprint(k.raw) != fmt.Sprint(k.at) {
+			return verdict{"result-overwritten/second-run", fmt.Sprintf("a slice returned by %s read %v when it was returned and reads %v after the later evaluations of the same program value (runs from states %d, %d, %d): running a program must not change what an earlier run returned",
+				k.what, k.at, k.raw, s, (s+1)%3, s)}, first
 		}
 	}
 	return verdict{}, first
@@ -1312,7 +1363,8 @@ func main() {
 		r.Rule = "every execution runs one built StateT value up to three times (see assumptions). programs: every AST with at most N nodes over the alphabet in bounds (leaf Pure(arg)/Modify(+arg) only under a binder) x every initial state in {0,1,2}; failing leaves (FromTry(Failure), ModifyT, GetST, MapT, MapWithStateT) are ordinary alphabet members, so a failure is injected at every position; non-trivial = the reference ran at least two primitive steps or a failure occurred; distinct = (program, initial state, result, final state). laws: law x initial state x Put argument x all 27 functions on {0,1,2}. recover-after-state-change: (program of a fixed family that changes the state through Put/Modify/ModifyS/Modify(+arg) and fails with e1 or e2, at every position of FlatMapConst/FlatMap/Map2/Zip/Concat/Sequence/Traverse*/FoldM/WithState compositions of 2-3 steps) x (each of the eight Recover* methods, Transform, TransformWith; RecoverWith/RecoverCaseWith/TransformWith with each of ten handler programs that read, keep, overwrite or modify the state or fail) x (alone | followed by Get) x initial state, same reference and key naming"
 		r.Assumptions = []string{
 			"the reference interpreter ref(e)(s) in the driver encodes the statement: state flows left to right; after a failing step nothing later runs and the state is the state at the failure; a Recover* handler gets the error and that state, which is the state returned (RecoverWith/RecoverCaseWith: the handler's program starts from it)",
-			"each execution builds the library program once (including the Seq/slice/iterator inputs of Traverse/FoldM/Sequence) and runs that one value from the chosen state, again from the same state and from the next state (mod 3); every run is compared with the reference run from its state, callback logs per run; keys of the later runs end in /second-run",
+			"each execution builds the library program once (including the Seq/slice/iterator inputs of Traverse/FoldM/Sequence) and runs that one value from the chosen state, from the next state (mod 3) and from the chosen state again; every run is compared with the reference run from its state, callback logs per run; keys of the later runs end in /second-run",
+			"every slice a Sequence/Traverse* step hands out is kept; after the last run each must still read as it did when it was returned (key kind result-overwritten/second-run): a program value is reusable, running has no memory. The alphabet has (p := e; Map2(p, p, f)), the same sub-program value twice inside one program",
 			"a program that contains a combinator taking a caller-supplied fp.Iterator (FoldM, Traverse, SequenceIterator) is only run once: an iterator is single-use, so only the first run of such a StateT is demanded; TraverseSeq, TraverseSlice and Sequence (slice arguments) are run three times",
 			"callback logs are compared by containment: every user-function invocation made by the library (with its arguments) must also occur in the reference run; missing or repeated invocations are not demanded",
 			"functions that only construct a sub-program (FlatMap continuation, Traverse/FoldM body, RecoverWith handler) are not logged: constructing a later step without running it is not what the statement forbids",
